@@ -18,6 +18,19 @@ Reject(c, s) == PrintT(<<"V", Rec.case, "REJECT", c, s, Tags(Rec)>>) /\ NextCase
 Adv(s) == st' = s /\ l' = l + 1 /\ i' = i
 Vectors(r) == /\ Len(r.dist) = Len(r.serial)
               /\ \A k \in 1..Len(r.serial) : Close(r.dist[k], r.serial[k], Max2(Tol, Abs(r.serial[k]) \div 100000))
+\* the chunks submitted in one round (one connected component) partition the node range [0, N) of that
+\* component: first chunk starts at 0, every chunk is non-empty and starts where its predecessor ends, the last
+\* one ends at N - whatever rule the bounds were chosen by (jobs that carry no bounds are not chunks)
+Submits(r) == SelectSeq(r.events, LAMBDA ev : ev.ev = "submit")
+RoundStart(r, k) == 1 + SumN(LAMBDA j : r.parts[j], 1, k - 1)
+ChunkPartition(r) ==
+  LET S == Submits(r) IN
+  (Len(S) = SumN(LAMBDA j : r.parts[j], 1, Len(r.parts)) /\ \A q \in 1..Len(S) : S[q].lo >= 0) =>
+  \A k \in 1..Len(r.parts) :
+     LET a == RoundStart(r, k)  b == a + r.parts[k] - 1 IN
+     /\ S[a].lo = 0 /\ S[b].hi = S[b].N
+     /\ \A q \in a..b : S[q].lo < S[q].hi /\ S[q].N = S[a].N
+     /\ \A q \in a..(b - 1) : S[q].hi = S[q + 1].lo
 Next ==
   /\ i <= Len(Trace)
   /\ IF l = 1 /\ Rec.serial_exc # "" THEN Reject("Applicable", "serial:" \o Rec.serial_exc)
@@ -27,6 +40,7 @@ Next ==
      THEN IF Rec.exc # "" THEN Reject("Applicable", "distributed:" \o Rec.exc)
           ELSE IF ~(s0.phase = "done" /\ Complete(s0) /\ ResultsRight(s0) /\ Rec.leftover = 0)
                THEN Reject("ProtocolComplete", "end of run")
+          ELSE IF ~ChunkPartition(Rec) THEN Reject("ChunkPartition", Rec.measure)
           ELSE IF ~Vectors(Rec) THEN Reject("Functional", Rec.measure)
           ELSE PrintT(<<"V", Rec.case, "ACCEPT", "", "", Tags(Rec)>>) /\ NextCase
      ELSE LET ev == Rec.events[l] IN
